@@ -138,9 +138,38 @@ func runC10Case(seed int64, idx int) *c10Result {
 
 	addPlaylist := func(name string, tracks []*origin.Track, tagBase int) *c10Playlist {
 		st := &origin.Stream{Container: container, Tracks: tracks, FragsPer: frags}
+		if len(tracks) > 1 && tracks[0].Kind.IsVideo() {
+			// drawn apart from rng so that the other dimensions of a (seed, index) case stay as they were
+			if li := (uint64(seed)*31 + uint64(idx)*17) % 5; li >= 3 {
+				a := tracks[len(tracks)-1]
+				st.LeadIn = float64(int64(li-2)*a.SampleDur) / float64(a.TimeScale)
+			}
+		}
 		if err := st.Build(nSeg, segSamples, tagBase); err != nil {
 			fail("harness", "build %s: %v", name, err)
 			return nil
+		}
+		if st.LeadIn > 0 {
+			// every segment file must still carry data of every declared track (the MPEG-TS reader
+			// learns the audio configuration from the first file): otherwise fall back to no lead-in
+			have := map[[2]int]bool{}
+			for ti, t := range tracks {
+				for _, sm := range t.Samples {
+					have[[2]int{ti, sm.Seg}] = true
+				}
+			}
+			if len(have) == len(tracks)*nSeg {
+				feats["audio-lead-in"] = true
+			} else {
+				for _, t := range tracks {
+					t.Samples = nil
+				}
+				st = &origin.Stream{Container: container, Tracks: tracks, FragsPer: frags}
+				if err := st.Build(nSeg, segSamples, tagBase); err != nil {
+					fail("harness", "build %s: %v", name, err)
+					return nil
+				}
+			}
 		}
 		plURL := baseURL + name
 		pl := &origin.Playlist{URL: plURL, TargetDuration: 1, OmitRangeStart: rangeMode == "nostart"}
@@ -293,6 +322,7 @@ func runC10Case(seed int64, idx int) *c10Result {
 	}
 	if !errors.Is(run.WaitErr, gohlslib.ErrClientEOS) {
 		fail("end", "a well-formed finite stream ended with %v instead of ErrClientEOS", run.WaitErr)
+		res.desc = map[string]any{"seed": seed, "index": idx, "container": container, "features": fmt.Sprint(feats), "segments": nSeg, "vod": vod}
 		return res
 	}
 	tracks, units, per := run.Snapshot()
